@@ -51,10 +51,14 @@ std::string demangle(const char* n) {
   return r;
 }
 
+vf::Ctx* g_replay_ctx = nullptr;  // replay mode: lets the crash handler print the case decoded so far
+bool g_replay = false;
+
 Result run_one(const std::vector<uint8_t>& tape) {
   Result r;
   vf::Tape t(tape.data(), tape.size());
   vf::Ctx ctx;
+  if (g_replay) g_replay_ctx = &ctx;
   ctx.excluded_ids = &g_excluded;
   try {
     vf::run_case(t, ctx);
@@ -184,6 +188,17 @@ char g_crash_path[512] = {0};
 volatile sig_atomic_t g_dumped = 0;
 
 void dump_current() {
+  if (g_replay_ctx && !g_dumped) {  // replay of a crashing tape: show what had been decoded when it died
+    g_dumped = 1;
+    std::string d = g_replay_ctx->desc.str();
+    std::string head = std::string("HARNESS ") + vf::harness_name() + "\nCASE (decoded up to the crash)\n";
+    if (write(1, head.data(), head.size()) < 0 || write(1, d.data(), d.size()) < 0) {
+    }
+    const char* tail = "\nVERDICT CRASHED (sanitizer report or signal, see stderr)\n";
+    if (write(1, tail, strlen(tail)) < 0) {
+    }
+    return;
+  }
   if (g_dumped || !g_crash_path[0] || !g_cur) return;
   g_dumped = 1;
   int fd = open(g_crash_path, O_WRONLY | O_CREAT | O_TRUNC, 0644);
@@ -454,7 +469,11 @@ int main(int argc, char** argv) {
 
   if (mode == "replay") {
     std::vector<uint8_t> tape = read_file(file);
+    g_replay = true;
+    if (__sanitizer_set_death_callback) __sanitizer_set_death_callback(dump_current);
+    for (int s : {SIGABRT, SIGSEGV, SIGFPE, SIGILL, SIGBUS}) signal(s, on_signal);
     Result r = run_one(tape);
+    g_replay_ctx = nullptr;
     std::cout << "HARNESS " << vf::harness_name() << "\nTAPE " << tape.size() << " bytes\nCASE\n" << r.desc;
     if (!r.desc.empty() && r.desc.back() != '\n') std::cout << "\n";
     std::cout << "CLASSES";
